@@ -39,7 +39,11 @@ ASSUMPTIONS = [
     "simulation equality is claimed with the same quadrature only: static cases use Field(matrixType=rigi) on any mesh; "
     "matrixType=mass cases require that the built-in K is the same for the rigi and mass rules on that mesh (checked with the "
     "built-ins, otherwise inconclusive); 1D thermal uses thickness 1 (the docs do not define a thickness in 1D)",
-    "element loops bounded: <= 12 elements per group (<= 3 for nPe > 10), meshes <= 1500 dofs in the simulations",
+    "element loops bounded: <= 12 elements per group (<= 3 for nPe > 10; element types with nPe > 10 only in the thorough tier), "
+    "meshes <= 1500 dofs in the simulations",
+    "classes on which EasyFEA raises (findings/C13.json, status known) are not run but counted (labels excluded:*); "
+    "inside the value-mismatch classes the deviation is pinned to the recorded one (oracles interpreter_transposed_grad, "
+    "interpreter_value_without_dof)",
 ]
 LEVEL_TEXT = ("generated weak-form programs x element type x dof_n x quadrature checked against an independent numpy interpreter, "
               "the built-in operators, a dense scatter-add and the dedicated thermal / elastic simulations (static, parabolic, hyperbolic)")
@@ -49,6 +53,9 @@ TECHNIQUE = "property-based testing (Hypothesis, generated programs) vs numpy in
 DESIGN_REF = "DESIGN.md 4/C13"
 READY = True
 
+# reference layout of `u.grad` for vector fields: "doc" = (dof_n, dim) as documented in docs/howto/new_simulation.md
+# (and as returned in Evaluate_e mode); "code" = (dim, dof_n) as built by Field.grad in assembly mode (finding C13-e)
+GRAD_LAYOUT = "doc"
 TOL_ID = 1e-12  # identity level
 TOL_MAT = 1e-11  # matrices of two simulations whose quadrature rules are both exact but different
 TOL_SOLVE = 1e-8
@@ -179,14 +186,14 @@ def check_interp(case, rec):
     else:
         got = LinearForm(cf.compile_linear(form, d)).Integrate_e(field)
     got = np.asarray(got, float)
-    I = cf.Interp(g, n, mt, "doc")
+    I = cf.Interp(g, n, mt, GRAD_LAYOUT)
     ref, scale = I.bilinear(form) if bil else I.linear(form)
     txt = cf.describe_form(form, bil)
     vv = "vector_value" in tags
     sens = False
     ref2 = ref
     if n > 1:
-        I2 = cf.Interp(g, n, mt, "code")
+        I2 = cf.Interp(g, n, mt, "code" if GRAD_LAYOUT == "doc" else "doc")
         ref2, _ = I2.bilinear(form) if bil else I2.linear(form)
         sens = bool(np.abs(ref - ref2).max() > 1e-13 * scale)
     sig = dict(elemType=et, dof_n=n, kind=case["kind"], vector_value=vv, layout_sensitive=sens)
